@@ -1,6 +1,7 @@
 (* C19 -- Diagnostics are complete and never spurious (partial: see MANIFEST level text). *)
 From Rimu Require Import Base Unicode Regex RegexAnalysis RegexParse Str Types Tables Guards State Inline Block
-  Frame FrameBlock FrameInst OptionsLemmas MiscLemmas MoreLemmas Plain TableFacts Rel RelBlock RelApi PlainDoc Lines MatchExact MacroSubst.
+  Frame FrameBlock FrameInst OptionsLemmas MiscLemmas MoreLemmas Plain TableFacts Rel RelBlock RelApi PlainDoc Lines MatchExact MacroSubst
+  Emphasis HtmlTag TagDoc HeaderDoc CodeBlock ListDoc MacroDefine MacroDoc Silent.
 
 (* every inline computation run by the block layer changes nothing but the diagnostic log *)
 Theorem C19_lift_only_logs : forall A (f : ienv -> I A) s a s', lift f s = Ok (a, s') -> exists l, s' = set_log s l.
@@ -85,3 +86,48 @@ Theorem C19_undefined_macro_reported : forall sr s pre name post,
   Ok (text, [$"undefined macro: " ++ (123 :: name ++ [125]) ++ $": " ++ pre ++ (123 :: name ++ [125]) ++ post]).
 Proof. exact undefined_invocation. Qed.
 Print Assumptions C19_undefined_macro_reported.
+
+(* NEVER SPURIOUS, on whole documents: the well-formed documents of the end-to-end theorems -- a paragraph with an emphasis, a
+   paragraph with an HTML tag (whatever the policy), a header, a fenced code block and a comment block with any content, a
+   nested list, a macro definition followed by a paragraph that invokes it -- are rendered successfully and the diagnostic log
+   afterwards is the log before, for all the texts, names, lengths, sessions and fuels the theorems quantify over *)
+Theorem C19_emphasis_silent : forall n s c pre body post,
+  quiet_default s -> In c safe_first -> over safe_alphabet (c :: pre) -> over safe_alphabet body -> body_ok body -> over safe_alphabet post ->
+  silent (doc_render (S (S (S (S (S (S n)))))) ((c :: pre) ++ star :: body ++ star :: post) s) s.
+Proof. exact emphasis_silent. Qed.
+Print Assumptions C19_emphasis_silent.
+
+Theorem C19_tag_silent : forall n s c pre name post,
+  quiet_default s -> In c word_first -> over word2_alphabet (c :: pre) -> name_ok2 name -> over word2_alphabet name -> over word2_alphabet post ->
+  silent (doc_render (S (S (S (S (S (S n)))))) ((c :: pre) ++ 60 :: name ++ 62 :: post) s) s.
+Proof. exact tag_silent. Qed.
+Print Assumptions C19_tag_silent.
+
+Theorem C19_header_silent : forall n mk title s, quiet_default s -> header_ids_off s -> marker_ok mk -> title_ok title ->
+  silent (doc_render (S (S (S (S (S n))))) (hd_line mk title) s) s.
+Proof. exact header_silent. Qed.
+Print Assumptions C19_header_silent.
+
+Theorem C19_code_block_silent : forall fuel doc n content s, quiet_default s -> Forall nlfree content -> ~ In fence content ->
+  silent (doc_loop (S fuel) doc (S (S n)) (fence :: content ++ [fence]) s) s.
+Proof. exact code_block_silent. Qed.
+Print Assumptions C19_code_block_silent.
+
+Theorem C19_comment_block_silent : forall fuel doc n content s, quiet_default s ->
+  (forall l, In l content -> re_search (d_closeRe comment_def) l = None) ->
+  silent (doc_loop fuel doc (S (S n)) (copen :: content ++ [cclose]) s) s.
+Proof. exact comment_block_silent. Qed.
+Print Assumptions C19_comment_block_silent.
+
+Theorem C19_nested_list_silent : forall n mk1 mk2 item1 item2 s, In mk1 markers -> In mk2 markers -> mk1 <> mk2 ->
+  quiet_default s -> li_item_ok item1 -> li_item_ok item2 ->
+  silent (doc_render (S (S (S (S (S (S (S (S (S (S (S n))))))))))) (li_line mk1 item1 ++ 10 :: li_line mk2 item2) s) s.
+Proof. exact nested_list_silent. Qed.
+Print Assumptions C19_nested_list_silent.
+
+Theorem C19_define_invoke_silent : forall n s c pre name post value,
+  quiet_default s -> setValue_skip (s_mode s) = false -> name <> $"--" ->
+  In c safe_first -> over safe_alphabet (c :: pre) -> over safe_alphabet post -> over safe_alphabet value -> inv_name_ok name ->
+  silent (doc_render (S (S (S (S (S (S (S n))))))) (def_line name value ++ 10 :: 10 :: inv_para c pre name post) s) s.
+Proof. exact define_invoke_silent. Qed.
+Print Assumptions C19_define_invoke_silent.
